@@ -17,3 +17,16 @@ Definition cfg_ok (s : cfg_site) : bool :=
   | FileGate | ItemGate | LetCapacity | LetRootGuess => true
   | CfgOther _ => false
   end.
+
+(** * Panic sites (C14) *)
+Inductive site_class :=
+| Documented (k : panic_kind)   (* one of the documented failure cases of the public API *)
+| Unreachable (site : Z)        (* internal check: modelled as [Internal site] (or dominated by one) and
+                                   excluded by the refinement theorems ("= Ret …" for every valid input) *)
+| DepContract                   (* precondition of dependency code / infallible by type (e.g. to_usize of a small value) *)
+| Unclassified.                 (* not in the reviewed baseline: a new unconditional panic site *)
+
+Record panic_site := { ps_line : Z; ps_class : site_class }.
+
+Definition site_ok (s : panic_site) : bool :=
+  match ps_class s with Unclassified => false | _ => true end.
